@@ -24,6 +24,11 @@ class Ast:
                 self.by_name.setdefault(it["sig"]["name"], []).append(ent)
             if it["k"] == "Bitflags":
                 self.by_name.setdefault(nm, []).append(ent)
+            if it["k"] == "Impl":
+                # associated constants (`impl T { const K: .. = ..; }`) are found by name like free constants
+                for sub in it.get("items", []) or []:
+                    if sub and sub.get("k") == "Const" and sub.get("name"):
+                        self.by_name.setdefault(sub["name"], []).append((ent[0], ent[1], ent[2], dict(sub, assoc_of=it.get("self_ty") or it.get("name"))))
 
     def _walk(self, crate, modpath, file, mod):
         for it in mod.get("items", []) or []:
